@@ -11,13 +11,14 @@
 #include "../src/memory.c"
 #include "../src/array.c"
 
-#define MAXO 16
+#define MAXO 24
 #define MAXX 8
 
 union slot {
     cstl_unique_ptr_t u;
     cstl_shared_ptr_t s;    /* also cstl_weak_ptr_t */
     cstl_array_t a;
+    struct cstl_guarded_ptr g;  /* kind G: the guarded pointer used directly */
 };
 
 static union slot pool[MAXO];
@@ -32,9 +33,28 @@ static size_t kind_size(char k)
     switch (k) {
     case 'U': return sizeof(cstl_unique_ptr_t);
     case 'A': return sizeof(cstl_array_t);
+    case 'G': return sizeof(struct cstl_guarded_ptr);
     default: return sizeof(cstl_shared_ptr_t);
     }
 }
+
+/* kind G: the script's pointer values are small integers, 0 = NULL; nothing
+ * ever dereferences them */
+#define GBASE 0x1000u
+static void * gval_ptr(unsigned long long v)
+{
+    return (void *)(uintptr_t)(v ? GBASE + v : 0);
+}
+static long gptr_val(const void * p)
+{
+    return p ? (long)((uintptr_t)p - GBASE) : -1;
+}
+
+/* header `constapi 1`: every accessor that has a const variant is called
+ * through it (cstl_unique_ptr_get_const, cstl_shared_ptr_get_const,
+ * cstl_array_at_const, cstl_array_data_const, cstl_guarded_ptr_get_const);
+ * same specification, same trace */
+static int constapi;
 
 /* block id of a pointer to the start of a live block: -1 NULL, -2 unknown */
 static int blk(const void * p)
@@ -101,6 +121,7 @@ static struct cstl_guarded_ptr * gp_of(int i)
     switch (kind[i]) {
     case 'U': return &pool[i].u.gp;
     case 'A': return &pool[i].a.ptr.data;
+    case 'G': return &pool[i].g;
     default: return &pool[i].s.data;
     }
 }
@@ -129,6 +150,7 @@ static void dump(void)
         printf(" | %c%d self=", kind[i], i);
         for (j = 0; j < nobj; j++) if (g->self == (void *)&pool[j]) break;
         if (j < nobj) printf("%d", j); else printf("?");
+        if (kind[i] == 'G') { printf(" p=%ld", gptr_val(g->ptr)); continue; }
         printf(" p=%d", p);
         if (kind[i] == 'U') {
             printf(" c=%d", pool[i].u.clr.func == clr_log ? (int)(intptr_t)pool[i].u.clr.priv
@@ -164,6 +186,7 @@ static void obj_init(int i)
     case 'S': cstl_shared_ptr_init(&pool[i].s); break;
     case 'W': cstl_weak_ptr_init(&pool[i].s); break;
     case 'A': cstl_array_init(&pool[i].a); break;
+    case 'G': cstl_guarded_ptr_init(&pool[i].g); break;
     }
 }
 static void obj_reset(int i)
@@ -173,6 +196,7 @@ static void obj_reset(int i)
     case 'S': cstl_shared_ptr_reset(&pool[i].s); break;
     case 'W': cstl_weak_ptr_reset(&pool[i].s); break;
     case 'A': cstl_array_reset(&pool[i].a); break;
+    case 'G': cstl_guarded_ptr_init(&pool[i].g); break;   /* owns nothing */
     }
 }
 
@@ -187,7 +211,7 @@ static void run_case(const struct h_case * c)
     int i, k, started = 0;
 
     ha_reset();
-    nobj = 0; next_ = 0; cbprobe = -1; cstl_shared_ptr_init(&probe_sp);
+    nobj = 0; next_ = 0; cbprobe = -1; constapi = 0; cstl_shared_ptr_init(&probe_sp);
     for (i = 0; i < c->nlines; i++) {
         const struct h_line * l = &c->lines[i];
         int nw = l->nw, a, b, marks[H_MAXW], nmarks = 0;
@@ -214,6 +238,7 @@ static void run_case(const struct h_case * c)
         }
         if (h_weq(l, 0, "failfrom")) { ha_fail_from = (long)h_int(l, 1); continue; }
         if (h_weq(l, 0, "cbprobe")) { cbprobe = (int)h_int(l, 1); continue; }
+        if (h_weq(l, 0, "constapi")) { constapi = (int)h_int(l, 1); continue; }
         if (!started) {
             for (k = 0; k < nobj; k++) obj_init(k);
             started = 1;
@@ -244,7 +269,7 @@ static void run_case(const struct h_case * c)
             ha_active = 0; printf("ok ");
         }
         else if (h_weq(l, 0, "uget")) {
-            void * p = cstl_unique_ptr_get(&pool[a].u);
+            const void * p = constapi ? cstl_unique_ptr_get_const(&pool[a].u) : cstl_unique_ptr_get(&pool[a].u);
             ha_active = 0; printf("ok %d", blk(p));
         }
         else if (h_weq(l, 0, "urelease")) {
@@ -266,7 +291,7 @@ static void run_case(const struct h_case * c)
             ha_active = 0; printf("ok ");
         }
         else if (h_weq(l, 0, "sget")) {
-            void * p = cstl_shared_ptr_get(&pool[a].s);
+            const void * p = constapi ? cstl_shared_ptr_get_const(&pool[a].s) : cstl_shared_ptr_get(&pool[a].s);
             ha_active = 0; printf("ok %d", blk(p));
         }
         else if (h_weq(l, 0, "sunique")) {
@@ -302,6 +327,24 @@ static void run_case(const struct h_case * c)
             memcpy(&pool[b], &pool[a], kind_size(kind[a]));
             printf("ok ");
         }
+        else if (h_weq(l, 0, "ginit")) { cstl_guarded_ptr_init(&pool[a].g); ha_active = 0; printf("ok "); }
+        else if (h_weq(l, 0, "gset")) { cstl_guarded_ptr_set(&pool[a].g, gval_ptr(x2)); ha_active = 0; printf("ok "); }
+        else if (h_weq(l, 0, "gget")) {
+            const void * p = constapi ? cstl_guarded_ptr_get_const(&pool[a].g) : cstl_guarded_ptr_get(&pool[a].g);
+            ha_active = 0; printf("ok %ld", gptr_val(p));
+        }
+        else if (h_weq(l, 0, "ggetc")) {
+            const void * p = cstl_guarded_ptr_get_const(&pool[a].g);
+            ha_active = 0; printf("ok %ld", gptr_val(p));
+        }
+        else if (h_weq(l, 0, "gcopy")) {          /* gcopy dst src */
+            if (b < 0 || b >= nobj) { printf("precond\n"); return; }
+            cstl_guarded_ptr_copy(&pool[a].g, &pool[b].g); ha_active = 0; printf("ok ");
+        }
+        else if (h_weq(l, 0, "gswap")) {
+            if (b < 0 || b >= nobj) { printf("precond\n"); return; }
+            cstl_guarded_ptr_swap(&pool[a].g, &pool[b].g); ha_active = 0; printf("ok ");
+        }
         else if (h_weq(l, 0, "ainit")) { cstl_array_init(&pool[a].a); ha_active = 0; printf("ok "); }
         else if (h_weq(l, 0, "aalloc")) {
             cstl_array_alloc(&pool[a].a, (size_t)x2, (size_t)x3); ha_active = 0; printf("ok ");
@@ -317,13 +360,14 @@ static void run_case(const struct h_case * c)
             printf("ok %d", p ? (ext_index(p) >= 0 ? ext_index(p) : -2) : -1);
         }
         else if (h_weq(l, 0, "adata")) {
-            void * p = cstl_array_data(&pool[a].a);
+            const void * p = constapi ? cstl_array_data_const(&pool[a].a) : cstl_array_data(&pool[a].a);
             ha_active = 0;
             if (!print_loc(locbuf, p, 0)) { fprintf(stderr, "adata: address outside every live buffer\n"); die_fault(); }
             printf("ok%s", locbuf);
         }
         else if (h_weq(l, 0, "aat")) {
-            void * p = cstl_array_at(&pool[a].a, (size_t)x2);
+            void * p = constapi ? (void *)cstl_array_at_const(&pool[a].a, (size_t)x2)
+                                : cstl_array_at(&pool[a].a, (size_t)x2);
             const struct cstl_raw_array * ra = raw_of(a);
             size_t esz = ra ? ra->sz : 1;
             ha_active = 0;
